@@ -114,6 +114,12 @@ CHECKS = {
         text="Every reversed scenario is run reversed and forward on harness-generated mirrored files with negated velocity; TLC validates both traces against the composed specification (clock reads S, S-dt, ...; releases at their stated times; time coordinate) and decides the pairing: record k of the reversed run and record k of the mirrored run hold the same particles (pids) with bit-identical positions, at mirrored times.",
         note="Mirrored inputs are generated by the harness (frame order reversed, t -> axis - t, fields negated).",
         design="6 C10"),
+    "C08": dict(
+        level="model_checking",
+        technique="LadimTrace with a warm-start catch-up cycle whose specification state is initialised from the uninterrupted run's own recorded history; PairTrace restart relation; warm output schedule model-checked (MC_OutFile)",
+        text="For every uninterrupted split run a warm-started run from every completed output file is executed. TLC validates the restarted run's whole trace against the composed specification started from the uninterrupted run's recorded state at the restart record (catch-up step without output, releases at the start time skipped, identifiers continuing, file numbers continuing) and decides the relation: every record written after the restart and before the (step-aligned) stop time equals the uninterrupted run's record at that time - particle sets, identifiers, positions, ages (bit-for-bit digests) - and the particle variables agree.",
+        note="Forward time, diffusion off. Output without particle variables falls back to max(pid)+1 for the identifier counter (documented limitation of the repaired code, not exercised).",
+        design="6 C08"),
 }
 
 NOT_YET = {}
